@@ -50,10 +50,11 @@ class C09(conncheck.ConnCheck):
     technique = ('fault enumeration as deviations inside the explicit-state explorer (engine A): for every server-step history up to the depth '
                  'bound, a fault (ECONNRESET-style OSError, arbitrary exception, EOF, timeout) is injected at every individual socket operation '
                  '(getaddrinfo, socket, connect per address, each sendall, each recv, each selector wait) and the stream is cut at every byte '
-                 'offset; structural oracle on the terminal event, graceful flag, escaping exceptions, descriptor release and application-visible errors')
+                 'offset, over the fake selector and over lomond\'s real poll/select/kqueue selectors; every pattern of refusing addresses over 2-3 attempts on one object '
+                 '(each resolved address is tried); structural oracle on the terminal event, graceful flag, escaping exceptions, descriptor release and application-visible errors')
     assumptions = [
-        'failures of shutdown()/close() are not injected (not in the property\'s fault list)',
-        '"socket closed" = close() called or descriptor unreachable after gc (a non-OSError raised by connect() leaves the never-connected socket to the garbage collector)',
+        'shutdown() answers ENOTCONN once the connection has been reset (as the kernel does); other failures of shutdown()/close() are not injected',
+        '"socket closed" = close() was called on the descriptor; only when the injected fault is an arbitrary non-socket exception does a descriptor that became unreachable count as released',
         'graceful=False is demanded only when the library observed the fault while neither side had started the closing handshake',
         'two resolved addresses; TLS scenario uses the record-model socket of lv.world',
     ]
